@@ -8,12 +8,14 @@ use vh_lite::{rows_json, Driven, Value};
 
 use vh_lite::{read_cases, drive, drive_group, quiet_panics, Out};
 
+mod trrel_order__ser;
 mod trrel_bin__ser;
 mod trrel_tern__ser;
 mod trrel_plain__ser;
 
 fn lookup(name: &str) -> fn() -> Box<dyn Driven> {
    match name {
+      "trrel_order__ser" => trrel_order__ser::make,
       "trrel_bin__ser" => trrel_bin__ser::make,
       "trrel_tern__ser" => trrel_tern__ser::make,
       "trrel_plain__ser" => trrel_plain__ser::make,
